@@ -76,9 +76,32 @@ def make_gen(rng, env, form):
     return g
 
 
+def plain_spends(g, rng):
+    """1-3 spends with distinct parents and a few conditions that are valid whatever the puzzle hash is"""
+    out = []
+    for _ in range(1 + rng.below(3)):
+        s = g.new_spend(parent=rng.bytes(32))
+        for _ in range(rng.below(4)):
+            k = rng.below(5)
+            if k == 0:
+                g.add_raw(s, "REMARK", [])
+            elif k == 1:
+                g.add_raw(s, "CREATE_COIN", [rng.bytes(32), canon(min(s["amount"], rng.below(3)))])
+                s["amount_left"] = 0
+            elif k == 2:
+                g.add_raw(s, "ASSERT_HEIGHT_ABSOLUTE", [canon(rng.below(100))])
+            elif k == 3:
+                g.add_raw(s, "ASSERT_SECONDS_ABSOLUTE", [canon(rng.below(1000))])
+            else:
+                g.add_raw(s, "RESERVE_FEE", [canon(0)])
+        # at most one CREATE_COIN per distinct (ph, amount) is guaranteed by the random puzzle hashes
+        out.append(s)
+    return out
+
+
 def spends_of_scenario(g, rng, scen, form):
     """run one condgen scenario and turn its spends into coin spends"""
-    sp = getattr(g, "sc_" + scen)()
+    sp = plain_spends(g, rng) if scen == "plain" else getattr(g, "sc_" + scen)()
     if isinstance(sp, tuple):
         sp = sp[1]
     out, tags = [], []
@@ -87,6 +110,12 @@ def spends_of_scenario(g, rng, scen, form):
         parent = (s["parent"] + b"\x00" * 32)[:32]
         if form == "one":
             puzzle, solution = b"\x01", conds
+        elif form == "dialect":
+            name, expr = rng.choice(DIALECT_EXPRS)
+            # (r (c EXPR (q . conditions))): evaluates EXPR under the dialect, discards it, returns the conditions
+            puzzle = to_list([b"\x06", to_list([b"\x04", expr, (b"\x01", conds)])])
+            solution = b""
+            tags.append(("DIALECT", name))
         else:
             puzzle = (b"\x01", conds)
             solution = rng.choice([b"", b"", b"", b"\x01", to_list([b"a", b"bc"]), (b"x", b"y")])
@@ -95,6 +124,28 @@ def spends_of_scenario(g, rng, scen, form):
         tags += s["tags"]
     return out, tags
 
+
+# expressions whose EVALUATION depends on the CLVM dialect flags (clvmr chia_dialect.rs / op_utils.rs): each is evaluated
+# and discarded by a puzzle of the form (r (c EXPR (q . conditions)))
+def _q(a):
+    return (b"\x01", a)
+
+
+DIALECT_EXPRS = [
+    ("unknown-op-0x50", (b"\x50", b"")),                                         # NO_UNKNOWN_OPS: Unimplemented, else no-op
+    ("unknown-op-args", (b"\x50", to_list([_q(b"\x05"), _q(b"abc")]))),
+    ("unknown-op-2byte", (b"\x02\x50", to_list([_q(b"\x01")]))),
+    ("modpow", (b"\x3c", to_list([_q(b"\x02"), _q(b"\x03"), _q(b"\x05")]))),      # DISABLE_OP
+    ("keccak256", (b"\x3e", to_list([_q(b"abc")]))),                             # ENABLE_KECCAK_OPS_OUTSIDE_GUARD, else unknown op
+    ("sha256tree", (b"\x3f", to_list([_q((b"a", b"b"))]))),                      # ENABLE_SHA256_TREE, else unknown op
+    ("secp-noargs", (b"\x40", b"")),                                             # ENABLE_SECP_OPS: error; else unknown op
+    ("noncanonical-int", (b"\x10", to_list([_q(b"\x00\x01"), _q(b"\x01")]))),     # CANONICAL_INTS
+    ("noncanonical-neg", (b"\x12", to_list([_q(b"\xff\xff"), _q(b"\x02")]))),
+    ("g1-negate-invalid", (b"\x33", to_list([_q(b"\x00" * 48)]))),                # RELAXED_BLS
+    ("plain-add", (b"\x10", to_list([_q(b"\x02"), _q(b"\x03")]))),               # control: same in every dialect
+]
+CLVM_BITS = 0x1 | 0x2 | 0x8 | 0x10 | 0x100 | 0x200 | 0x400 | 0x800
+CLVM_STRICT = 0x1 | 0x2 | 0x10 | 0x200          # the dialect part of MEMPOOL_MODE (LIMIT_HEAP aside)
 
 SCENARIOS = ["single", "single", "multi", "announce", "concurrent", "message", "ephemeral", "locks", "dup", "fees",
              "aggsig", "unknown", "malformed", "ff", "limits"]
@@ -116,7 +167,9 @@ def random_flags(rng, env):
 
 
 def synthetic(rng, env, scen=None, form=None):
-    form = form or rng.choice(["one", "one", "quote"])
+    form = form or rng.choice(["one", "one", "quote", "dialect"])
+    if form == "dialect" and scen is None and rng.chance(2, 3):
+        scen = "plain"            # mostly-accepted bundles, so that a dialect mix-up changes the verdict
     scen = scen or rng.choice(SCENARIOS)
     if scen == "limits":
         if rng.chance(1, 4):
@@ -126,7 +179,23 @@ def synthetic(rng, env, scen=None, form=None):
     g = make_gen(rng, env, form)
     spends, tags = spends_of_scenario(g, rng, scen, form)
     b = {"spends": spends, "sig": "-", "flags": random_flags(rng, env), "max_cost": 11000000000, "scenario": scen,
-         "form": form, "tags": tags, "mut": "none"}
+         "form": form, "tags": tags, "mut": "none", "dialect": "-"}
+    if form == "dialect":
+        # flag sets for dialect-gated puzzles: consensus mode (no strict CLVM bit), the full MEMPOOL_MODE, or a random subset
+        k = rng.below(4)
+        fl = b["flags"] & ~CLVM_BITS
+        if k < 2:
+            b["dialect"] = "consensus"
+            fl &= ~env["mempool_mode"] | F_DONT_VALIDATE | 0x800000 | F_INTERNED | F_SIMPLE
+        elif k == 2:
+            b["dialect"] = "mempool"
+            fl |= env["mempool_mode"]
+        else:
+            b["dialect"] = "mixed"
+            for bit in (0x1, 0x2, 0x8, 0x10, 0x100, 0x200, 0x400, 0x800):
+                if rng.chance(1, 3):
+                    fl |= bit
+        b["flags"] = fl
     # single-point mutations that leave the hypothesis of C08 (recorded; the oracle skips them, the models do not)
     k = rng.below(40)
     if k == 0 and spends:
